@@ -160,9 +160,11 @@ def validate_request(request, json_config):
     params = request.get("params")
     param_types = (utils.ListType, utils.DictType, utils.TupleType)
 
+    # (the type is checked first: a loaded object given as method name might
+    # not have a truth value)
     if (
-        not method
-        or not isinstance(method, utils.STRING_TYPES)
+        not isinstance(method, utils.STRING_TYPES)
+        or not method
         or not isinstance(params, param_types)
     ):
         # Invalid type of method name or parameters
@@ -227,7 +229,14 @@ class SimpleJSONRPCDispatcher(SimpleXMLRPCDispatcher, object):
                  was a notification
         :raise NoMulticallResult: No result in batch
         """
-        if not request:
+        try:
+            no_data = not request
+        except Exception:
+            # The request is a loaded object without a truth value: it will
+            # be rejected by the validation
+            no_data = False
+
+        if no_data:
             # Invalid request dictionary
             fault = Fault(
                 -32600,
